@@ -131,22 +131,55 @@ pub fn sample_json(o: &Outcome) -> serde_json::Value {
 /// Ok(true) = still fails exactly as listed, Ok(false) = now yields the expected tokens, Err = something else.
 pub fn pp_witness(f: &crate::findings::Finding) -> Result<bool, Fail> {
     let w = &f.witness;
+    if w["kind"].as_str() == Some("strip_diff") {
+        return strip_diff_witness(f);
+    }
     if w["kind"].as_str() != Some("pp_tokens") {
         return Ok(false);
     }
     let src = w["source"].as_str().unwrap_or("");
     let strip = w["strip"].as_bool().unwrap_or(false);
     let toks = |v: &serde_json::Value| -> Vec<String> { v.as_array().map(|a| a.iter().filter_map(|x| x.as_str().map(|s| s.to_string())).collect()).unwrap_or_default() };
-    let expected = toks(&w["expected_tokens"]);
-    let listed = toks(&w["listed_actual_tokens"]);
-    let r = sv::pp(src, std::path::Path::new("top.sv"), &Default::default(), &[], false, strip);
+    // token lists may be given directly or as output text ("expected_output" / "listed_output"; "<error KIND>" for an error)
+    let from_text = |v: &serde_json::Value| -> Option<Vec<String>> {
+        let t = v.as_str()?;
+        if t.starts_with("<error") {
+            return Some(vec![t.to_string()]);
+        }
+        match crate::lexer::lex(t) {
+            Ok(ts) => Some(ts.iter().map(|t| t.text.to_string()).collect()),
+            Err(e) => Some(vec![format!("<lex error {:?}>", e)]),
+        }
+    };
+    let expected = from_text(&w["expected_output"]).unwrap_or_else(|| toks(&w["expected_tokens"]));
+    let listed = from_text(&w["listed_output"]).unwrap_or_else(|| toks(&w["listed_actual_tokens"]));
+    // optional side files ("files": {name: text}) are written to a fresh directory that also serves as include path
+    let mut dir: Option<std::path::PathBuf> = None;
+    if let Some(files) = w["files"].as_object() {
+        let d = std::env::temp_dir().join(format!("svverif-witness-{}-{}", std::process::id(), f.id));
+        let _ = std::fs::remove_dir_all(&d);
+        let _ = std::fs::create_dir_all(&d);
+        for (name, text) in files {
+            let _ = std::fs::write(d.join(name), text.as_str().unwrap_or(""));
+        }
+        dir = Some(d);
+    }
+    let incs: Vec<std::path::PathBuf> = dir.iter().cloned().collect();
+    let top = dir.as_ref().map(|d| d.join("top.sv")).unwrap_or_else(|| std::path::PathBuf::from("top.sv"));
+    let r = sv::pp(src, &top, &Default::default(), &incs, false, strip);
+    if let Some(d) = &dir {
+        let _ = std::fs::remove_dir_all(d);
+    }
     let actual: Vec<String> = match &r {
         Ok((t, _)) => match crate::lexer::lex(t.text()) {
             Ok(ts) => ts.iter().map(|t| t.text.to_string()).collect(),
             Err(e) => vec![format!("<lex error {:?}>", e)],
         },
-        Err(e) => vec![format!("<error {}>", sv::err_kind(e))],
+        // (paths inside an error are machine dependent: only the outermost kinds are compared)
+        Err(e) => vec![format!("<error {}>", sv::err_kind(e).split('(').next().unwrap_or(""))],
     };
+    let strip_paths = |v: Vec<String>| -> Vec<String> { v.into_iter().map(|t| if t.starts_with("<error ") { format!("{}>", t.trim_end_matches('>').split('(').next().unwrap_or("")) } else { t }).collect() };
+    let (listed, expected) = (strip_paths(listed), strip_paths(expected));
     if actual == listed {
         Ok(true)
     } else if actual == expected {
@@ -157,4 +190,16 @@ pub fn pp_witness(f: &crate::findings::Finding) -> Result<bool, Fail> {
             json!({"source": src, "actual_tokens": actual, "listed": listed, "expected": expected}),
         ))
     }
+}
+
+/// witness {"kind":"strip_diff","source":…}: still fails iff the non-comment tokens of the two modes differ
+pub fn strip_diff_witness(f: &crate::findings::Finding) -> Result<bool, Fail> {
+    let src = f.witness["source"].as_str().unwrap_or("");
+    let run = |strip: bool| -> Vec<String> {
+        match sv::pp(src, std::path::Path::new("top.sv"), &Default::default(), &[], false, strip) {
+            Ok((t, _)) => crate::lexer::code_tokens(t.text()).unwrap_or_else(|e| vec![format!("<lex error {:?}>", e)]),
+            Err(e) => vec![format!("<error {}>", sv::err_kind(&e))],
+        }
+    };
+    Ok(run(false) != run(true))
 }
